@@ -62,9 +62,14 @@ Structured(s, mode) == mode = "structured" /\ s.dir # "nokvp"
 RefIdx(kvs) == IF \E i \in 1..Len(kvs) : IsRefShape(kvs[i])
                THEN CHOOSE i \in 1..Len(kvs) : IsRefShape(kvs[i]) ELSE 0
 
+(* the log crate takes any expression as target; the canonical form of C10 has a string literal.  A statement with
+   another target expression may be recognised or not, but whatever is done to it must keep it compiling (C09) *)
+ExprTargets == {"const", "macrocall", "concat", "fmtexpr"}
+
 Outcome(s, mode) ==
   IF ~IsStatement(s) THEN "none"
   ELSE IF s.dir = "ignore" THEN "ignored"
+  ELSE IF s.target \in ExprTargets THEN "any"
   ELSE IF ~Structured(s, mode) /\ \E i \in 1..Len(s.kvs) : RefOnlyUntouched(s.kvs[i]) THEN "any"   \* not a simple key-value
   ELSE IF Structured(s, mode)
     THEN IF RefIdx(s.kvs) = 0 THEN "missing"
